@@ -1,5 +1,5 @@
 """C20 — neighbourhoods on index topologies (Topology::find_neighbors, decompose_index, euclidean_distance)."""
-import math, random, struct
+import hashlib, math, random, re, struct
 import vcheck
 from vcheck import Stream, sx_str, sx_parse, run_impl, run_model, die
 
@@ -18,15 +18,56 @@ ASSUMPTIONS = [
     "the two differ in the last bit when x*x is not representable (|x| > 4096) — modelled per profile, and outside the theorems' size condition",
     "size side-conditions of the theorems: ndim * (e-1)^2 < 2^24 (float exactness), e^(ndim-1) < 2^64 (checked_pow succeeds), ntotal <= 2^31 (`i as i32`), with e the integer root",
     "index == ntotal is accepted by the guard (`>`), negative / NaN radius and ndim = 0 / ntotal = 0 give None: outside the quantifier, both sides are still compared there",
+    "long 1-dimensional topologies (ntotal 46340 .. 70000, beyond the size condition): the release build is compared with the model and the geometric set; the debug build (libm powf per cell; "
+    "the model's oracle table is an association list) is judged by the geometric set only, the model is not run there (stream long-1d-debug-impl-only)",
     "ndim >= 65 with ntotal >= 2: find_neighbors returns None (checked_pow(64) overflows) — KnownClass 1, see known_findings.jsonl",
 ]
 
 TRUSTED_EXTRA = [
+    "checks/C20.py wraps vcheck._shard: find_neighbors cases with ndim 1 and ntotal >= 20000 run one per worker (implementation, model and checker)",
+    "Suites/STopology.v geo_nbrs_fast (index enumeration in Z) replaces the specification's geo_nbrs inside the wire checker; lemma geo_nbrs_fast_eq proves them equal",
     "Base/F32Flocq.v (Flocq binary32 instance of FloatOps, with the classical axioms of Coq's Reals) runs inside the extracted model and the wire checker only; no C20 theorem mentions it",
     "libm oracle: powf values in the case tables are computed by the harness binary itself (Rust std f32::powf), suite 'libm'",
 ]
 
 TWO = 0x40000000
+
+# A find_neighbors case on a long 1-dimensional topology costs seconds in the extracted model (one Flocq sqrt per
+# cell): such cases go one per worker, for the implementation, the model and the checker alike.  lib/vcheck.py
+# honours Stream.per_shard for the implementation only, hence the wrapper around its sharding function.
+_HEAVY = re.compile(r"^topo(?:\.check)? \(*[01] \(\) 2 (\d+) 1 ")
+_plain_shard = vcheck._shard
+
+
+def _shard_heavy_alone(lines, n, per_shard=200):
+    m = _HEAVY.match(lines[0][:80]) if lines else None
+    return _plain_shard(lines, n, 1 if m and int(m.group(1)) >= 20000 else per_shard)
+
+
+vcheck._shard = _shard_heavy_alone
+
+# edge lengths around the largest coordinate difference whose square fits a 32-bit integer (46340^2 < 2^31 <= 46341^2)
+# and around 2^16 (65536^2 = 2^32)
+LONG_NTOTAL = [46340, 46341, 46342, 65536, 65537, 70000]
+LONG_RADII = [0.0, 1.0, 46340.0, 46341.0, 65536.0, 1e6]
+
+
+def long_1d_cases(prof, rng, per_size):
+    """ndim = 1, ntotal = one long edge.  Per size: index 0 with a radius that covers everything, the last index with a
+    radius beyond the overflow point, then the extreme and middle indices with radii rotating over
+    {0, 1, 46340, 46341, 65536, 10^6}; per_size[k] of them are kept for the k-th size"""
+    cases = []
+    k = rng.randrange(len(LONG_RADII))
+    for nt, keep in zip(LONG_NTOTAL, per_size):
+        first = [(0, 1e6), (nt - 1, 65536.0 if nt > 65536 else 46341.0)]
+        rest = []
+        for index in (1, nt // 2, 0, nt - 1):
+            rest.append((index, LONG_RADII[k % len(LONG_RADII)])); k += 1
+        rest = [p for p in rest if p not in first]
+        rng.shuffle(rest)
+        for index, r in (first + rest)[:keep]:
+            cases.append(sx_str([prof, [], 2, nt, 1, index, bits(r)]))
+    return cases
 
 
 def bits(x):
@@ -147,6 +188,17 @@ def api_streams(seed, tier):
     out.append(Stream("powers-guards-random", "topo", "topo.check", cases,
                       "ntotal = e^d and e^d +- 1 (d 2..12), guard cases (ntotal/ndim 0, index >= ntotal, negative/-0/NaN/inf/subnormal radius), 6..100 dimensions, random ntotal < 3000 x ndim 1..8"))
 
+    # 2b. long one-dimensional topologies (release build: x * x, no oracle table), compared with the model AND
+    #     with the geometric set (the checker does not apply the theorems' size condition: verdict 0/1, never 2)
+    cases = long_1d_cases(1, rng, {"quick": [2, 2, 3, 3, 3, 3], "thorough": [6] * 6, "search": [6] * 6}[tier])     # quick: 16 cases = one per worker
+    st = Stream("long-1d-release", "topo", "topo.check", cases,
+                "find_neighbors with ndim 1 and ntotal in {46340, 46341, 46342, 65536, 65537, 70000} (coordinate differences around sqrt(2^31) and 2^16, far beyond the "
+                "float-exactness bound 4096 of the theorems), index in {0, 1, ntotal-1, ntotal/2}, radii {0, 1, 46340, 46341, 65536, 10^6}, release build: "
+                "equal to the model and to the geometric set evaluated with Flocq's binary32")
+    st.per_shard = 1
+    st.timeout = 1200
+    out.append(st)
+
     # 3. symmetry and monotonicity stated directly on pairs of calls
     cases = []
     npairs = {"quick": 1000, "thorough": 20000, "search": 6000}[tier]
@@ -231,6 +283,38 @@ LEVEL_TEXT = ("Machine-checked theorems: the edge computed by the (repaired) cod
 LEVEL_NOTE = ("Trusted: Coq kernel, extraction, ocaml/driver.ml, Rust harness, generators. Theorems are closed under the global context; their float hypotheses (FloatIntExact) are "
               "explicit premises, not axioms, validated on Rust's f32 by the f32-facts stream. The Flocq binary32 instance (with the classical axioms of Coq's Reals) is used only by the "
               "extracted model and the wire checker, never by a theorem.")
+
+
+def extra(ctx):
+    """The debug build on the long 1-dimensional topologies: it calls libm's powf once per cell, and the model's oracle
+    table is an association list (quadratic for 46342 entries), so the model is NOT run here: the implementation's
+    output is judged by topo.check alone (the geometric set, which needs no powf)."""
+    rng = random.Random(ctx.seed + 20)
+    cases = long_1d_cases(0, rng, {"quick": [2] * 6, "thorough": [6] * 6, "search": [6] * 6}[ctx.tier])
+    outs = vcheck.run_impl(["topo " + c for c in cases], timeout=600, per_shard=1)
+    verdicts = vcheck.run_checker("topo.check", cases, outs)
+    name = "long-1d-debug-impl-only"
+    stat = ctx.stats.setdefault(name, {"cases": 0, "impl_panics": 0, "disagree": 0, "pred_fail": 0, "out_of_scope": 0, "model_compared": False,
+                                       "note": "the same grid on the debug build (libm powf), implementation only: topo.check (centre, ascending, valid, = geometric set) on its output"})
+    stat["cases"] += len(cases)
+    ctx.evaluations += len(cases)
+    reported = False
+    for c, o, v in zip(cases, outs, verdicts):
+        if o == vcheck.BAD or v == vcheck.BAD:
+            die("malformed case reached a suite (generator bug): topo %s" % c[:300])
+        if o == "(1)" or o.startswith("(9"):
+            stat["impl_panics"] += 1
+        if v == "2":
+            stat["out_of_scope"] += 1
+        else:
+            ctx.nontrivial.add(hashlib.sha1(("topo" + c).encode()).digest()[:8])
+        if v == "0":
+            stat["pred_fail"] += 1
+            if not reported:
+                reported = True
+                ctx.violation("property predicate fails on the implementation's output", {
+                    "property": ctx.prop, "kind": "predicate-fails", "stream": name, "suite": "topo", "checker": "topo.check",
+                    "case": c, "impl_output": o[:2000], "how_to_replay": "bin/check C20 --replay <this file>"})
 
 
 def streams(seed, tier):
